@@ -69,8 +69,8 @@ class SeriesStubs:
             dom = ValDomain(ctx)
             iv = list(in_vals) + ([coefs[:k]] if prev else [])
             a = evaluate(ir, iv, dom)[0][0]
-            if dom.decisions:
-                raise Unsupported("series argument depends on a branch")
+            if dom.alternatives:
+                raise Unsupported("series argument depends on a two-sided branch")
             x = ctx.sqrt(a) if squared else a
             tan4 = None
             atan_x = None
